@@ -55,7 +55,10 @@ def same_data(a, b):
 
 
 def fresh_hash(mb, rec, cr):
-    q = quantizer.Quantizer(mb, copy.deepcopy(rec))
+    try:
+        q = quantizer.Quantizer(mb, copy.deepcopy(rec))
+    except Exception as e:  # noqa: BLE001  (an exported recipe that does not load back is itself a difference)
+        return "RAISE-ON-LOAD " + type(e).__name__
     try:
         return "OK " + hashlib.sha256(bytes(q.quantize(copy.deepcopy(cr)).quantized_model)).hexdigest()
     except Exception as e:  # noqa: BLE001
@@ -96,8 +99,97 @@ def policy_file(which):
     return _DEFAULT_POLICY_FILE[0]
 
 
+def retrained(mb):
+    """the same architecture with other weights (what re-exporting after fine-tuning gives): same file length, or None"""
+    from tensorflow.lite.tools import flatbuffer_utils
+    a = pl.read(mb)
+    b = pl.read(mb)
+    changed = False
+    for sg in b.subgraphs:
+        for t in sg.tensors:
+            buf = b.buffers[t.buffer]
+            if buf.data is not None and t.type == 0 and len(buf.data) >= 4:   # FLOAT32 constants
+                arr = np.frombuffer(np.asarray(buf.data, dtype=np.uint8).tobytes(), dtype="<f4").copy()
+                arr = (arr * np.float32(-0.75) + np.float32(0.125)).astype("<f4")
+                buf.data = np.frombuffer(arr.tobytes(), dtype=np.uint8)
+                changed = True
+    if not changed:
+        return None
+    fa_, fb_ = bytes(flatbuffer_utils.convert_object_to_bytearray(a)), bytes(flatbuffer_utils.convert_object_to_bytearray(b))
+    return (fa_, fb_) if len(fa_) == len(fb_) and fa_ != fb_ else None
+
+
+def path_case(ctx, rng, i):
+    """models given as a PATH: the file is replaced by a re-export of the same architecture (same length) between two Quantizer objects;
+    each object must quantize what the file held when it was created"""
+    case = fp.gen_case(rng, i, n_samples=1)
+    pair = retrained(case.mb)
+    if pair is None:
+        return
+    name, rec = rng.choice(pl.shipped_recipes())
+    d = tempfile.mkdtemp(prefix="c14_")
+    path = os.path.join(d, "model.tflite")
+    outs = []
+    try:
+        for content in (pair[0], pair[1], pair[0]):
+            with open(path, "wb") as f:
+                f.write(content)
+            try:
+                q = quantizer.Quantizer(path, copy.deepcopy(rec))
+                cr = None
+                if q.need_calibration:
+                    for sig, samples in case.data.items():
+                        cr = q.calibrate(samples, signature_key=sig, previous_calibration_result=cr)
+                got = "OK " + hashlib.sha256(bytes(q.quantize(cr).quantized_model)).hexdigest()
+            except Exception as e:  # noqa: BLE001
+                got, cr = "RAISE " + type(e).__name__, None
+            # reference: a fresh object given the same content as bytes (and its own calibration on the same data)
+            try:
+                q2 = quantizer.Quantizer(bytearray(content), copy.deepcopy(rec))
+                cr2 = None
+                if q2.need_calibration:
+                    for sig, samples in case.data.items():
+                        cr2 = q2.calibrate(samples, signature_key=sig, previous_calibration_result=cr2)
+                want = "OK " + hashlib.sha256(bytes(q2.quantize(cr2).quantized_model)).hexdigest()
+            except Exception as e:  # noqa: BLE001
+                want = "RAISE " + type(e).__name__
+            outs.append((got, want))
+            ctx.tag("path_model_compared")
+            if got != want:
+                ctx.fail(f"Quantizer(path) quantized something else than the file content at construction time ({got[:20]} vs {want[:20]}): "
+                         "the result depends on earlier Quantizer objects reading the same path",
+                         {**case.replay(), "recipe": name, "history": ["write A, quantize", "write B (same length), quantize", "write A, quantize"]}, "path-content-stale")
+                return
+    finally:
+        import shutil
+        shutil.rmtree(d, ignore_errors=True)
+    ctx.case({"ops": [sg["ops"] for sg in case.info["subgraphs"]], "history": "path-rewrite", "recipe": name}, True)
+
+
+def scribble(obj):
+    """what a caller may do to an object the API handed out: edit it in place at every nesting level"""
+    if isinstance(obj, dict):
+        for k in list(obj):
+            v = obj[k]
+            if isinstance(v, (dict, list)):
+                scribble(v)
+            elif isinstance(v, bool):
+                obj[k] = not v
+            elif isinstance(v, int):
+                obj[k] = 4 if v != 4 else 8
+            elif isinstance(v, str):
+                obj[k] = v + "_edited"
+        obj["edited_by_caller"] = 1
+    elif isinstance(obj, list):
+        for v in obj:
+            scribble(v)
+        obj.append({"edited_by_caller": 1})
+
+
 def history_case(ctx, drv, rng, i, n_sub):
     try:
+        if i % 10 == 7:
+            return path_case(ctx, rng, i)
         return _history_case(ctx, drv, rng, i, n_sub)
     finally:
         fp.restore_policy({"policy": True})   # load_config_policy is process-global
@@ -117,6 +209,7 @@ def _history_case(ctx, drv, rng, i, n_sub):
         ctx.fail(msg, {**replay, "history": log}, key)
     recipes = [pl.gen_recipe(rng, mb) for _ in range(3)] + [None]
     last = None
+    last_result = [None, None]
     # scripted prefixes that need a specific order to manifest, followed by random steps
     names = [n for sc in pl.scopes_of(mb) for n in sc.split(";") if n]
     script = []
@@ -131,7 +224,15 @@ def _history_case(ctx, drv, rng, i, n_sub):
     for forced in steps:
         k = 0 if forced else rng.choice([0, 0, 1])
         q = qs[k]
-        act = forced or rng.choice(["recipe", "load", "load_short", "calibrate", "quantize", "quantize", "validate", "policy_example", "policy_default"])
+        act = forced or rng.choice(["recipe", "load", "load_short", "calibrate", "quantize", "quantize", "validate", "policy_example", "policy_default", "edit_export"])
+        if act == "edit_export":
+            # objects handed out by the API belong to the caller: editing them in place must not reach the Quantizer
+            scribble(q.get_quantization_recipe())
+            if last_result[k] is not None:
+                scribble(last_result[k].recipe)
+            log.append((k, act))
+            ctx.tag(act)
+            continue
         if act in ("policy_example", "policy_default"):
             q.load_config_policy(policy_file(act.split("_")[1]))
             log.append((k, act))
@@ -196,7 +297,8 @@ def _history_case(ctx, drv, rng, i, n_sub):
                     ctx.tag("large_path")
                 try:
                     try:
-                        out = "OK " + hashlib.sha256(bytes(q.quantize(cr_in).quantized_model)).hexdigest()
+                        last_result[k] = q.quantize(cr_in)
+                        out = "OK " + hashlib.sha256(bytes(last_result[k].quantized_model)).hexdigest()
                     except Exception as e:  # noqa: BLE001
                         out = "RAISE " + type(e).__name__
                     if cr_in is not None and snap(cr_in) != c0:
